@@ -898,6 +898,7 @@ func mapSelfTest() error {
 }
 
 func run(c *fw.Ctx) {
+	c.ConcPart()
 	boot()
 	if err := mapSelfTest(); err != nil {
 		c.Cap("map iteration control self-test failed: " + err.Error())
